@@ -78,6 +78,7 @@ def write_all(d: str):
 CTX1 = [
     {"a": [1, 2]}, {"a": [1, 2], "b": [10, 20]}, {"b": [10, 20], "a": [1, 2]}, {"a": [1, 2, 3], "b": [10, 20]},
     {"a": []}, {"a": [], "b": [10]}, {"c": [7]}, {"c": [5, 6, 7], "a": [1, 2]}, {},
+    {"a": [0, None], "b": [False, ""]},   # falsy / null values are values like any other
 ]
 SRC1_QUICK = [
     None,
